@@ -177,35 +177,35 @@ func (c *ReloadCommand) ControlFunc(_ context.Context, nc NetceptorForControlCom
 	// Reload command stops all backends, and re-runs the ParseAndRun() on the
 	// initial config file
 	nc.GetLogger().Debug("Reloading")
-	verifhook.Emit("ctl", "reload_begin", "r", fmt.Sprintf("%p", c))
+	verifhook.Emit("ctl", "reload_begin", "r", fmt.Sprintf("%p", &c))
 
 	// Do a quick check to catch any yaml errors before canceling backends
 	err := reloadParseAndRun([]string{"PreReload"})
-	verifhook.Emit("ctl", "reload_parse", "r", fmt.Sprintf("%p", c), "ok", err == nil)
+	verifhook.Emit("ctl", "reload_parse", "r", fmt.Sprintf("%p", &c), "ok", err == nil)
 	if err != nil {
 		return handleError(err, 4, nc.GetLogger())
 	}
 
 	// check if non-reloadable items have been added or modified
 	err = checkReload()
-	verifhook.Emit("ctl", "reload_check", "r", fmt.Sprintf("%p", c), "ok", err == nil)
+	verifhook.Emit("ctl", "reload_check", "r", fmt.Sprintf("%p", &c), "ok", err == nil)
 	if err != nil {
 		return handleError(err, 3, nc.GetLogger())
 	}
 
 	// check if non-reloadable items have been removed
 	err = cfgAbsent()
-	verifhook.Emit("ctl", "reload_absent", "r", fmt.Sprintf("%p", c), "ok", err == nil)
+	verifhook.Emit("ctl", "reload_absent", "r", fmt.Sprintf("%p", &c), "ok", err == nil)
 	if err != nil {
 		return handleError(err, 3, nc.GetLogger())
 	}
 
-	verifhook.Emit("ctl", "reload_cancel", "r", fmt.Sprintf("%p", c))
+	verifhook.Emit("ctl", "reload_cancel", "r", fmt.Sprintf("%p", &c))
 	nc.CancelBackends()
-	verifhook.Emit("ctl", "reload_cancelled", "r", fmt.Sprintf("%p", c))
+	verifhook.Emit("ctl", "reload_cancelled", "r", fmt.Sprintf("%p", &c))
 	// reloadParseAndRun is a ParseAndRun closure, set in receptor.go/main()
 	err = reloadParseAndRun([]string{"PreReload", "Reload"})
-	verifhook.Emit("ctl", "reload_started", "r", fmt.Sprintf("%p", c), "ok", err == nil)
+	verifhook.Emit("ctl", "reload_started", "r", fmt.Sprintf("%p", &c), "ok", err == nil)
 	if err != nil {
 		return handleError(err, 4, nc.GetLogger())
 	}
